@@ -45,7 +45,7 @@ def make_case(rng, method=None, prec_kind=None, force=None):
     reps = int(rng.integers(1, 4))
     n_ch = int(rng.integers(1, 7))
     ckind = gen.pick(rng, gen.LABEL_KINDS)
-    fkind = gen.pick(rng, gen.LABEL_KINDS)
+    fkind = gen.pick(rng, gen.LABEL_KINDS + ['floatts'])   # floatts: session time stamps, distinct but 'close' floats
     if force == 'many_reps_str':  # >= 10 occurrences per condition with string labels
         n_fold, reps, ckind = 4, 3, gen.pick(rng, ['str', 'strnum'])
     if force == 'many_reps_char':  # single-letter labels, more repetitions than one character can count
@@ -211,6 +211,17 @@ def run_case(ctx, case):
                                                    (noise_obj if not isinstance(noise_obj, np.ndarray) or noise_obj.ndim == 3
                                                     else [noise_obj])]
     meas_before = np.array(ds_same.measurements, copy=True)
+    if rng.integers(2):
+        # the dataset object has a history: another estimator (and a noise estimate) looked at it before, grouping the
+        # same rows by the same descriptor -- whatever they may have left on the object must not matter
+        try:
+            calc_rdm(ds_same, method='euclidean', descriptor='cond')
+            from rsatoolbox.data.noise import prec_from_unbalanced
+            if case['n_ch'] > 1 and case['method'] == 'crossnobis':
+                prec_from_unbalanced(ds_same, obs_desc='cond')
+            ctx.count('datasets_with_history')
+        except Exception as exc:   # noqa
+            ctx.notes.append(f'warm-up call raised {exc!r}')
     ok1, first = ctx.guarded('same_objects_twice', sig, calc_rdm, ds_same, data=lambda: witness(case), **kw)
     ok2, second = ctx.guarded('same_objects_twice', sig, calc_rdm, ds_same, data=lambda: witness(case), **kw)
     if ok1 and ok2:
@@ -224,6 +235,8 @@ def run_case(ctx, case):
         elif noise_before is not None and not all(np.array_equal(a, b) for a, b in zip(noise_before, noise_after)):
             ctx.fail('same_objects_twice', dict(sig, what='noise_modified'), 'calc_rdm altered the precision matrices it '
                      'was given', witness(case))
+        elif not pairs_equal(ctx, 'same_objects_twice', sig, first, want, case, what='first call on a used dataset object'):
+            pass
         elif not pairs_equal(ctx, 'same_objects_twice', sig, second, want, case, what='second call on the same objects'):
             pass
 
